@@ -3,6 +3,8 @@ from __future__ import annotations
 
 from typing import Any, Dict, List
 
+from hypothesis import strategies as st
+
 from vt.core.engine import Outcome, Part
 from vt.harness import procman
 from vt.props import pm_common as pc
@@ -126,3 +128,86 @@ def run_case(case: Dict[str, Any]) -> Outcome:  # type: ignore[no-redef]
     out.nontrivial = f.get("max_fails") is not None
     out.classes = ["cli_wiring"]
     return out
+
+
+# ---------------------------------------------------------------- the command's exit status is the manager's status
+#
+# "exits with the failure status exactly when ..." is observed by whoever started `taskiq worker`: run_worker() must hand
+# on what ProcessManager.start() returned - with and without --reload (a file observer that has to be stopped afterwards).
+
+
+def status_cases() -> Any:
+    return st.fixed_dictionaries({"cli_status": st.just(True), "reload": st.booleans(), "status": st.sampled_from([None, -1, -1]),
+                                  "observer_alive": st.booleans(), "workers": st.integers(1, 3), "via": st.sampled_from(["run_worker", "cmd"])})
+
+
+def run_status_case(c: Dict[str, Any]) -> Outcome:
+    import taskiq.cli.worker.run as wr
+    from taskiq.cli.worker.args import WorkerArgs
+
+    out = Outcome()
+    out.clauses_checked = ["C18.a"]
+    seen: Dict[str, Any] = {}
+
+    class FakeObserver:
+        def __init__(self) -> None:
+            self.alive = False
+            self.stopped = 0
+
+        def start(self) -> None:
+            self.alive = True
+
+        def is_alive(self) -> bool:
+            return self.alive and c["observer_alive"]
+
+        def stop(self) -> None:
+            self.stopped += 1
+            self.alive = False
+
+        def join(self, timeout: Any = None) -> None:
+            return None
+
+        def schedule(self, *a: Any, **k: Any) -> None:
+            return None
+
+    class StubManager:
+        def __init__(self, args: Any, worker_function: Any = None, observer: Any = None, **kw: Any) -> None:
+            seen["observer"] = observer
+            seen["workers"] = args.workers
+
+        def start(self) -> Any:
+            return c["status"]
+
+    saved = (wr.ProcessManager, wr.Observer)
+    wr.ProcessManager, wr.Observer = StubManager, FakeObserver  # type: ignore[misc,assignment]
+    try:
+        args = WorkerArgs(broker="x:y", modules=[], workers=c["workers"], reload=c["reload"], configure_logging=False)
+        if c["via"] == "cmd":
+            from taskiq.cli.worker.cmd import WorkerCMD
+
+            flags = ["x:y", "--workers", str(c["workers"]), "--no-configure-logging"] + (["--reload"] if c["reload"] else [])
+            got = WorkerCMD().exec(flags)
+        else:
+            got = wr.run_worker(args)
+    except BaseException as e:  # noqa: BLE001
+        out.add("C18.a", f"the worker command failed with {type(e).__name__}: {e} (reload={c['reload']})")
+        return out
+    finally:
+        wr.ProcessManager, wr.Observer = saved  # type: ignore[misc]
+    if got != c["status"] or type(got) is not type(c["status"]):
+        out.add("C18.a", f"the process manager ended with status {c['status']!r} but the worker command ({c['via']}, reload={c['reload']}, observer alive at the end={c['observer_alive']}) "
+                         f"returned {got!r}: the failure status is lost / invented on the way out")
+    out.nontrivial = bool(c["reload"] and c["status"] == -1)
+    out.classes = ["cli_status", "via=" + c["via"]] + (["reload"] if c["reload"] else []) + (["failure_status"] if c["status"] == -1 else [])
+    return out
+
+
+_parts_core3, _run_core3 = parts, run_case
+
+
+def parts(tier: str) -> List[Part]:  # type: ignore[no-redef]
+    return _parts_core3(tier) + [Part("cli_status", "given", shards=1, examples=600 if tier == "thorough" else 100, strategy=status_cases, soft_deadline_s=300)]
+
+
+def run_case(case: Dict[str, Any]) -> Outcome:  # type: ignore[no-redef]
+    return run_status_case(case) if case.get("cli_status") else _run_core3(case)
